@@ -677,7 +677,7 @@ def probe_all():
     from harness.suites import alias as S
     rows = []
     inner_site = {"any": ("any", "none"), "struct": ("struct", "none"), "inline": ("inline", "none"),
-                  "coll": ("array", "number"), "wrap": ("anyOf", "coll")}
+                  "coll": ("array", "untyped"), "wrap": ("anyOf", "coll")}
     done_all = {}
     for op in S.FIELD_OPS:
         # top-level site of the operation
